@@ -66,7 +66,9 @@ def classification(repo, res, a):
     # 3-input form: only clip, every unit-carrying input converted to the first input's unit
     fn = a.fn
     ok = False
-    if len(a.nary) == 1 and isinstance(a.nary[0], ast.If) and norm(a.nary[0].test) == "ufunc is clip":
+    t3 = a.nary[0].test if len(a.nary) == 1 and isinstance(a.nary[0], ast.If) else None
+    is_clip_test = isinstance(t3, ast.Compare) and len(t3.ops) == 1 and isinstance(t3.ops[0], ast.Is) and norm(t3.left) == "ufunc" and a.mod.qual(t3.comparators[0]) == "numpy.clip"
+    if is_clip_test:
         blk = a.nary[0]
         conv = [c for c in ast.walk(blk) if isinstance(c, ast.Call) and isinstance(c.func, ast.Attribute) and c.func.attr in ("to", "in_units") and norm(c.args[0]) == "inputs[0].units"]
         loops = [n for n in blk.body if isinstance(n, ast.For) and norm(n.iter) == "inputs"]
@@ -101,20 +103,21 @@ def mismatch_nest(repo, res, a):
         elif end[0] == "return":
             ok = fm.get("unit_operator is _comparison_unit") is True and fm.get("ufunc in (equal, not_equal)") is True
             res.check(ok, key, fn.where(end[1]), "a value is returned for operands of different dimensions outside the ==/!= exception", path=[f"{t}={tr}" for t, tr in facts], rid=r2)
-    # unification outside the nest (the bare-zero rule)
+    # unification outside the nest (the bare-zero rule): path summaries with conditions in canonical form, so the
+    # counts may be kept in a list, in two locals, or be tested directly
+    from engine.sem import summarise
+
     outside = [st for st in a.differ_if.body if st is not nest]
-    for n in ast.walk(ast.Module(body=outside, type_ignores=[])):
-        if isinstance(n, ast.Assign) and norm(n) in ("u0 = u1", "u1 = u0"):
-            pass
-    for i, p in enumerate(enum_paths(outside)):
-        facts = dict((t, tr) for t, tr, _ in path_facts(p))
-        for ev in p:
-            if ev[0] == "stmt" and isinstance(ev[1], ast.Assign) and norm(ev[1]) in ("u0 = u1", "u1 = u0"):
-                which = 0 if norm(ev[1]) == "u0 = u1" else 1
-                ok = facts.get("not isinstance(i0, unyt_array) or not isinstance(i1, unyt_array)") is True and facts.get(f"any_nonzero[{which}] == 0") is True
-                res.check(ok, f"unify:{norm(ev[1])}#{i}", fn.where(ev[1]), "units are unified without a dimension check outside the bare all-zero exception", path=[f"{t}={tr}" for t, tr in facts.items()], rid=r2)
-    nz = [n for n in ast.walk(a.differ_if) if isinstance(n, ast.Assign) and norm(n.targets[0]) == "any_nonzero"]
-    res.check(len(nz) == 1 and norm(nz[0].value) == "[np.count_nonzero(i0), np.count_nonzero(i1)]", "zero-test", fn.where(a.differ_if), "the all-zero test must count the non-zero elements of each operand, in order", rid=r2)
+    n_unify = 0
+    for i, x in enumerate(summarise(fn, body=outside, keep={"u0", "u1", "i0", "i1", "inp0", "inp1"})):
+        for eff in x.effects:
+            if eff in ("u0 = u1", "u1 = u0"):
+                n_unify += 1
+                which = "i0" if eff == "u0 = u1" else "i1"
+                bare = x.has("isinstance(i0, unyt_array)", False) or x.has("isinstance(i1, unyt_array)", False)
+                zero = x.has(f"np.count_nonzero({which}) == 0", True)
+                res.check(bare and zero, f"unify:{eff}#{i}", fn.where(a.differ_if), "units are unified without a dimension check outside the bare all-zero exception (one operand is not a unyt_array and the operand that adopts the other's unit has no non-zero element)", f"not isinstance(.., unyt_array) and np.count_nonzero({which}) == 0", sorted(x.facts), path=[f"{t}={tr}" for t, tr in sorted(x.facts)], rid=r2)
+    res.check(n_unify >= 2, "zero-test", fn.where(a.differ_if), "the all-zero exception (bare zeros may be added / compared) is present for either operand", rid=r2)
     # the block is entered whenever the units differ
     res.check(norm(a.differ_if.test) == "u0 is not u1 and u0 != u1", "entry", fn.where(a.differ_if), "the check must be entered whenever the two units are not equal", "u0 is not u1 and u0 != u1", norm(a.differ_if.test), rid=r2)
 
@@ -197,33 +200,35 @@ def merging_handlers(repo, res):
     fn = mod.func("_validate_units_consistency")
     res.fn(fn)
     objs = fn.params[0]
-    assigns = {norm(s.targets[0]): s.value for s in fn.body if isinstance(s, ast.Assign)}
-    res.check("units" in assigns and norm(assigns["units"]) == f"get_units({objs})", "v1:units", fn.where(), "the validator must collect the units of all its operands", rid=r4v)
-    uu = assigns.get("unique_units")
-    ok = uu is not None and norm(uu) == "[units[0], *(u for u in units if u != units[0])]"
-    res.check(ok, "v1:unique", fn.where(), "distinct units are those that compare unequal to the first", found=norm(uu) if uu is not None else None, rid=r4v)
-    ok = True
-    for p in enum_paths(fn.body):
-        facts = dict((t, tr) for t, tr, _ in path_facts(p))
-        end = p[-1]
-        if end[0] == "return":
-            ok &= facts.get("len(unique_units) == 1") is True and norm(end[1].value) == "units[0]"
+    from engine.sem import summarise
+
+    U = f"get_units({objs})"
+    distinct = f"len([{U}[0], *(_c0 for _c0 in {U} if _c0 != {U}[0])]) == 1"
+    sums = summarise(fn)
+    ok_units = all(any(U in t for t, _ in x.facts) for x in sums)
+    res.check(ok_units, "v1:units", fn.where(), "the validator must collect the units of all its operands", f"a test on {U}", [sorted(x.facts) for x in sums][:2], rid=r4v)
+    ok_unique = all(any(t == distinct for t, _ in x.facts) for x in sums)
+    res.check(ok_unique, "v1:unique", fn.where(), "distinct units are those that compare unequal to the first; the decision is whether exactly one distinct unit remains", distinct, [sorted(x.facts) for x in sums][:2], rid=r4v)
+    ok = bool(sums)
+    for x in sums:
+        if x.kind == "return":
+            ok &= x.has(distinct, True) and x.value == f"{U}[0]"
         else:
-            ok &= end[0] == "raise" and is_raise_of(end[1], "UnitInconsistencyError")
-    res.check(ok, "v1:exits", fn.where(), "return only when exactly one distinct unit was seen, otherwise raise UnitInconsistencyError", rid=r4v)
+            ok &= x.kind == "raise" and x.value.startswith("UnitInconsistencyError(") and x.has(distinct, False)
+    res.check(ok, "v1:exits", fn.where(), "return (the common unit) only when exactly one distinct unit was seen, otherwise raise UnitInconsistencyError", found=[(sorted(x.facts), x.kind, x.value) for x in sums], rid=r4v)
     fn2 = mod.func("_validate_units_consistency_v2")
     res.fn(fn2)
     ref = fn2.params[0]
     var = fn2.vararg
     ok = True
     saw = False
-    for p in enum_paths(fn2.body):
-        facts = dict((t, tr) for t, tr, _ in path_facts(p))
-        calls = [norm(c) for c in path_calls(p)]
-        if facts.get(f"all((isinstance(_, Number) for _ in {var}))") is True:
-            continue  # bare Python numbers: documented acceptance
+    bare = f"all((isinstance(_c0, Number) for _c0 in {var}))"
+    for x in summarise(fn2):
+        if x.has(bare, True):
+            ok &= not x.effects  # bare Python numbers: documented acceptance, nothing else happens
+            continue
         saw = True
-        ok &= f"_validate_units_consistency((1 * {ref}, *{var}))" in calls
+        ok &= x.has(bare, False) and f"_validate_units_consistency((1 * {ref}, *{var}))" in x.effects
     res.check(ok and saw, "v2", fn2.where(), "v2 must validate the reference unit together with all further operands unless they are all bare numbers", rid=r4v)
     g = mod.func("get_units")
     res.fn(g)
